@@ -101,6 +101,37 @@ def run_prop(prop, tier):
         wf.run_noformat_oracle(runs, model, bres, chk)
     if prop == 'C08':
         rewrite_stream(chk, model, bres, tier)
+        # a frame that lists two channels of one name (they differ in copy number only): refused, or written so that the
+        # descriptors of BOTH channels describe the slots of every row
+        from harness.common import rng
+        from harness import filegen
+        Rs = rng('C08', 'same-named')
+        specs2 = []
+        for i in range(40 if tier == 'quick' else 300):
+            sp = filegen.gen_spec(Rs, n_lf=1, small=True)
+            sp['write'].update({'data_kind': Rs.choice(['inline', 'dict']), 'from_idx': 0, 'to_idx': None})
+            fr = next((o for o in sp['lfs'][0]['objects'] if o['kind'] == 'frame'), None)
+            chans = [sp['lfs'][0]['objects'][r_.idx] for r_ in fr['channels']] if fr else []
+            if len(chans) < 2:
+                continue
+            a_, b_ = chans[-1], chans[-2 if len(chans) > 2 else 0]
+            if a_.get('index_like') or b_.get('index_like'):
+                continue
+            a_['name'] = b_['name']
+            a_['dataset_name'] = None
+            b_['dataset_name'] = None
+            specs2.append((50000 + i, sp))
+        runs2 = wf.execute(specs2, model, bres, chk, stream='same-named-channels')
+        good2 = []
+        for r in runs2:
+            chk.case('same-named-channels', nontrivial_key=('snc', r.index), sample=wf.sample_of(r))
+            if r.res['status'] == 'ok' and bres.ok and wf.oracle_readable(r, chk, 'c08-same-named'):
+                wf.oracle_channel_descriptors(r, chk)
+                good2.append(r)
+        before = len(chk.failures)
+        wf.run_frames_oracle(good2, model, bres, chk)
+        for f in chk.failures[before:]:
+            f['key'] = 'same-named:' + f['key']
     if prop in ('C03', 'C05', 'C16'):
         # objects renamed / given another origin after a first write, then the same DLISFile written again: the second
         # file is held against the changed specification by the same oracles
